@@ -100,6 +100,10 @@ func runSetup(vm *ds.Context, setup []string) {
 // order is Go map order (a one-key literal can gain keys by item assignment); two texts that
 // contain a dict rendering and are permutations of each other's bytes are taken to be the same.
 func sameModuloDictOrder(a, b string) bool {
+	// since fix 6269628 a dict prints and lists its entries in key order: nothing is tolerated any more
+	if true {
+		return false
+	}
 	if len(a) != len(b) || !strings.Contains(a, "{'") {
 		return false
 	}
